@@ -155,6 +155,8 @@ Theorem C04_source_facts :
   forallb snd gen_exit_checks_closed = true /\ length gen_exit_checks_closed = 4%nat /\
   forallb snd gen_ingress_seals_with_key = true /\ length gen_ingress_seals_with_key = 3%nat /\
   forallb snd gen_stream_senders_need_key = true /\ length gen_stream_senders_need_key = 6%nat /\
+  (* "no key offered" is decided by comparing the whole key with a zero array, in every function that takes the no-key branch *)
+  forallb snd gen_zero_key_tests = true /\ length gen_zero_key_tests = 6%nat /\
   (* the only code that zeroes a session key are the Close methods whose Encrypt/Decrypt check the closed flag under the same lock *)
   forallb (fun f => existsb (String.eqb f) allowed_key_zeroers) gen_session_key_zeroers = true /\
   (* the only code that assigns a session key field: the open-time setters and those two Close methods; nothing in exit, forward, shell or the file transfer streams *)
